@@ -18,9 +18,10 @@ pub fn validate(uri: &str) -> Result<NonZeroUsize, MxcUriError> {
     let server_name = &uri[..index];
     let media_id = &uri[index + 1..];
     // See: https://spec.matrix.org/v1.14/client-server-api/#security-considerations-5
-    let media_id_is_valid = media_id
-        .bytes()
-        .all(|b| matches!(b, b'0'..=b'9' | b'a'..=b'z' | b'A'..=b'Z' | b'-' | b'_' ));
+    let media_id_is_valid = !media_id.is_empty()
+        && media_id
+            .bytes()
+            .all(|b| matches!(b, b'0'..=b'9' | b'a'..=b'z' | b'A'..=b'Z' | b'-' | b'_' ));
 
     if !media_id_is_valid {
         Err(MxcUriError::MediaIdMalformed)
